@@ -434,6 +434,128 @@ theorem fold1_argmin_spec (d : Nat × Int) : ∀ xs : List (Nat × Int), xs ≠ 
         · subst h; exact Int.le_refl _
         · have := hall q h; omega
 
+/-! ### number of blocks along a reduced axis, layer by layer -/
+
+theorem numBlocksAfter_eq {k : Nat} (hk : 0 < k) (n : Nat) : numBlocksAfter k n = (n + k - 1) / k := by
+  unfold numBlocksAfter; rw [partitionAll_length hk, List.length_range]
+
+/-- `d` layers applied to `n` blocks. -/
+def blocksAfterLayers (k : Nat) : Nat → Nat → Nat
+  | 0, n => n
+  | d + 1, n => blocksAfterLayers k d (numBlocksAfter k n)
+
+theorem blocksAfterLayers_le_one {k : Nat} (hk : 0 < k) : ∀ d n, n ≤ k ^ d → blocksAfterLayers k d n ≤ 1 := by
+  intro d
+  induction d with
+  | zero => intro n h; simpa [blocksAfterLayers] using h
+  | succ d ih =>
+    intro n h
+    show blocksAfterLayers k d (numBlocksAfter k n) ≤ 1
+    apply ih
+    rw [numBlocksAfter_eq hk]
+    exact ceilDiv_le_pow hk h
+
+/-- one `PartialReduce.chunks` axis: all ones, one per group. -/
+theorem partialReduceChunks_axis {k : Nat} (hk : 0 < k) (c : List Nat) :
+    (partitionAll k c).map (fun _ => 1) = List.replicate ((c.length + k - 1) / k) 1 := by
+  rw [← partitionAll_length hk c]
+  generalize partitionAll k c = l
+  induction l with
+  | nil => rfl
+  | cons a l ih => simp [List.replicate_succ, ih]
+
+/-! ### n-D key wiring: the groups of one layer use exactly the input blocks -/
+
+/-- `l` picks one element from each list of `ls` (position-wise). -/
+def memEach {α} : List α → List (List α) → Prop
+  | [], [] => True
+  | x :: l, xs :: ls => x ∈ xs ∧ memEach l ls
+  | _, _ => False
+
+theorem mem_cart {α} : ∀ (ls : List (List α)) (l : List α), l ∈ cart ls ↔ memEach l ls := by
+  intro ls
+  induction ls with
+  | nil => intro l; cases l <;> simp [cart, memEach]
+  | cons xs rest ih =>
+    intro l
+    cases l with
+    | nil => simp [cart, memEach]
+    | cons x t =>
+      simp only [cart, List.mem_flatMap, List.mem_map, memEach]
+      constructor
+      · rintro ⟨y, hy, t', ht', e⟩
+        injection e with e1 e2
+        subst e1; subst e2
+        exact ⟨hy, (ih _).mp ht'⟩
+      · rintro ⟨hx, ht⟩
+        exact ⟨x, hx, t, (ih t).mpr ht, rfl⟩
+
+theorem memEach_groups {α} : ∀ (pss : List (List (List α))) (k : List α),
+    (∃ G, memEach G pss ∧ memEach k G) ↔ memEach k (pss.map List.flatten) := by
+  intro pss
+  induction pss with
+  | nil =>
+    intro k
+    constructor
+    · rintro ⟨G, hG, hk⟩
+      cases G with
+      | nil => cases k <;> simp_all [memEach]
+      | cons g G => simp [memEach] at hG
+    · intro h
+      cases k with
+      | nil => exact ⟨[], trivial, trivial⟩
+      | cons x t => simp [memEach] at h
+  | cons ps rest ih =>
+    intro k
+    cases k with
+    | nil =>
+      constructor
+      · rintro ⟨G, hG, hk⟩
+        cases G with
+        | nil => simp [memEach] at hG
+        | cons g G => simp [memEach] at hk
+      · intro h; simp [memEach] at h
+    | cons x t =>
+      constructor
+      · rintro ⟨G, hG, hk⟩
+        cases G with
+        | nil => simp [memEach] at hG
+        | cons g G =>
+          simp only [memEach] at hG hk
+          simp only [List.map_cons, memEach]
+          exact ⟨List.mem_flatten.mpr ⟨g, hG.1, hk.1⟩, (ih t).mp ⟨G, hG.2, hk.2⟩⟩
+      · intro h
+        simp only [List.map_cons, memEach] at h
+        obtain ⟨g, hg, hx⟩ := List.mem_flatten.mp h.1
+        obtain ⟨G, hG, hk⟩ := (ih t).mpr h.2
+        exact ⟨g :: G, ⟨hg, hG⟩, ⟨hx, hk⟩⟩
+
+theorem layerParts_flatten : ∀ (numblocks split : List Nat), numblocks.length = split.length →
+    (layerParts numblocks split).map List.flatten = numblocks.map List.range := by
+  intro nb
+  induction nb with
+  | nil => intro sp _; cases sp <;> rfl
+  | cons n nb ih =>
+    intro sp h
+    cases sp with
+    | nil => simp at h
+    | cons s sp =>
+      have h' : nb.length = sp.length := by simpa using h
+      have hk : 0 < (if s = 0 then 1 else s) := by split <;> omega
+      show (partitionAll _ (List.range n)).flatten :: (layerParts nb sp).map List.flatten = _
+      rw [partitionAll_flatten hk, ih sp h']
+      rfl
+
+/-- **Layer coverage.** An input block index is fed to some output task of a `PartialReduce` layer
+iff it is a block of the input grid (no block is dropped, no phantom block is referenced). -/
+theorem layer_inputs_cover (numblocks split : List Nat) (h : numblocks.length = split.length)
+    (k : List Nat) :
+    (∃ G ∈ cart (layerParts numblocks split), k ∈ cart G) ↔ k ∈ cart (numblocks.map List.range) := by
+  rw [mem_cart, ← layerParts_flatten numblocks split h, ← memEach_groups]
+  constructor
+  · rintro ⟨G, hG, hk⟩; exact ⟨G, (mem_cart _ _).mp hG, (mem_cart _ _).mp hk⟩
+  · rintro ⟨G, hG, hk⟩; exact ⟨G, (mem_cart _ _).mpr hG, (mem_cart _ _).mpr hk⟩
+
 /-! ### fan-in 1 never reduces (why `split_every[i] = 1` must be excluded) -/
 
 theorem partitionAll_one {α} (xs : List α) : partitionAll 1 xs = xs.map (fun x => [x]) := by
